@@ -77,15 +77,16 @@ theorem random_tie {σ} (g : Rng σ) (p : Gen.PlanSelectFn.DynamicChannelPlan) (
   | ok r =>
     have hle := range_le p hw r hrg
     simp only [Except.toOption, Option.map_some, Option.bind_some, bind, Except.bind, pure, Except.pure, Int.ofNat_eq_natCast]
-    by_cases h16 : r > 16
-    · omega
-    · by_cases h8 : r > 8
-      · have h8' : (r : Int) > 8 := by omega
-        have h16' : ¬ (r : Int) > 16 := by omega
-        simp [h16, h8, h8', h16', andI_15, next_rngOf]
-      · have h8' : ¬ (r : Int) > 8 := by omega
-        have h16' : ¬ (r : Int) > 16 := by omega
-        simp [h16, h8, h8', h16', andI_7, next_rngOf]
+    have hnot16 : ¬ r > 16 := by omega
+    have hnot16' : ¬ (r : Int) > 16 := by omega
+    have hle16 : (r : Int) ≤ 16 := by omega
+    by_cases h8 : r > 8
+    · have h8' : (r : Int) > 8 := by omega
+      have h8'' : ¬ (r : Int) ≤ 8 := by omega
+      simp [hnot16, hnot16', hle16, h8, h8', h8'', andI_15, andI_15', next_rngOf]
+    · have h8' : ¬ (r : Int) > 8 := by omega
+      have h8'' : (r : Int) ≤ 8 := by omega
+      simp [hnot16, hnot16', hle16, h8, h8', h8'', andI_7, andI_7', next_rngOf]
 
 theorem idx_datarates (r : RegionId) (dr : DR) :
     Rt.idx (datarates r) (Rt.wrap .usize (DR.toInt dr)) = (datarates r)[dr.toInt.toNat]? := by
@@ -105,7 +106,7 @@ theorem dyn_join_tie {σ} (g : Rng σ) (rs : RegionState) (p : Gen.PlanSelectFn.
         (fun o => (txOf o.1, { rs with plan := .dyn (planOf o.2.1) }, o.2.2))
       = (selectTxChannel g rs dr .join s).toOption := by
   unfold Gen.PlanSelectFn.DynamicChannelPlan.select_tx_channel selectTxChannel
-  simp only [hplan, next_rngOf, fuel_fuelOf, andI_3, Option.bind_eq_bind, Option.pure_def]
+  simp only [hplan, next_rngOf, fuel_fuelOf, andI_3, andI_3', remC_u32_4, Option.bind_eq_bind, Option.pure_def, Option.bind_some]
   rw [wrap_u8_nat _ (by omega), joinLoop_tie g (numJoinChannels rs.id)]
   · rw [toOption_bind, indexDatarate_opt, show (regOf rs.id).datarates = datarates rs.id from rfl, idx_datarates]
     cases hl : dynJoinLoop g (numJoinChannels rs.id) loopFuel s with
@@ -132,7 +133,17 @@ theorem dyn_join_tie {σ} (g : Rng σ) (rs : RegionState) (p : Gen.PlanSelectFn.
               rw [hrs]
               cases hdl : c.dl_frequency <;> rfl
   · intro s i
-    simp (disch := omega) only [next_rngOf, andI_3, wrap_u8_nat, regOf, ge_iff_le, Int.ofNat_le, decide_eq_true_eq]
+    have hw8 := wrap_u8_nat ((draw g s).1 % 4) (by omega)
+    have hw8' : Rt.wrap .u8 (((draw g s).1 : Int) % 4) = ((draw g s).1 : Int) % 4 := Rt.wrap_id_u8 (by omega) (by omega)
+    by_cases h : numJoinChannels rs.id ≤ i
+    · have h1 : ¬ i < numJoinChannels rs.id := by omega
+      have h2 : ((numJoinChannels rs.id : Nat) : Int) ≤ (i : Int) := by omega
+      have h3 : ¬ ((i : Int) < ((numJoinChannels rs.id : Nat) : Int)) := by omega
+      simp [next_rngOf, andI_3, andI_3', remC_u32_4, hw8, hw8', regOf, h, h1, h2, h3]
+    · have h1 : i < numJoinChannels rs.id := by omega
+      have h2 : ¬ ((numJoinChannels rs.id : Nat) : Int) ≤ (i : Int) := by omega
+      have h3 : ((i : Int) < ((numJoinChannels rs.id : Nat) : Int)) := by omega
+      simp [next_rngOf, andI_3, andI_3', remC_u32_4, hw8, hw8', regOf, h, h1, h2, h3]
 
 /-- a data frame on a dynamic plan -/
 theorem dyn_data_tie {σ} (g : Rng σ) (rs : RegionState) (p : Gen.PlanSelectFn.DynamicChannelPlan)
@@ -255,14 +266,16 @@ theorem dyn_data_tie {σ} (g : Rng σ) (rs : RegionState) (p : Gen.PlanSelectFn.
                     obtain ⟨hf0, hf1⟩ := hqf ch (List.mem_of_getElem? hch)
                     simp only [Option.map_some, Option.bind_some, pure, Except.pure]
                     rw [show (regOf rs.id).datarates = datarates rs.id from rfl, idx_datarates]
-                    have e1 : ch.ul_frequency = (((chanOf ch).freq : Nat) : Int) := by
-                      simp only [Gen.PlanSelectFn.Channel.ul_frequency, chanOf]; omega
+                    have e1 : ch.frequency = (((chanOf ch).freq : Nat) : Int) := by
+                      simp only [chanOf]; omega
+                    have e0 : ch.ul_frequency = ch.frequency := rfl
                     have e2 : ch.rx1_frequency = (((chanOf ch).rx1Frequency : Nat) : Int) := by
                       simp only [Gen.PlanSelectFn.Channel.rx1_frequency, chanOf, Channel.rx1Frequency]
                       cases hdl : ch.dl_frequency with
                       | none => simp only [Option.map_none]; omega
                       | some f => have := hf1 f hdl; simp only [Option.map_some]; omega
-                    rw [e1, e2]
+                    simp only [e0, e2]
+                    rw [e1]
                     cases (datarates rs.id)[dr.toInt.toNat]? with
                     | none => rfl
                     | some od => cases od <;> rfl
